@@ -24,6 +24,7 @@ SWITCHES = json.load(open(os.path.join(vlib.ROOT, "spec", "switches_commitpolicy
 # TLC caches LET definitions only with a single worker; this specification is LET-heavy big-number
 # arithmetic, so one worker is several times faster than eight
 WORKERS = 1
+MAX_FINDINGS = 16
 
 
 def _env(extra):
@@ -38,7 +39,7 @@ def leg_a(d, tier, timeout):
                                                      "CHECK_DEADLOCK FALSE\n")
     cases = os.path.join(d, "cases.ndjson")
     r = vlib.tlc("MC_CommitPolicy", cfg, env=_env({"CP_TIER": tier, "CP_OUT": cases}), workers=WORKERS,
-                 extra=["-continue"], timeout=timeout, name="mc-commitpolicy-" + tier)
+                 extra=["-continue", "-seed", str(vlib.seed())], timeout=timeout, name="mc-commitpolicy-" + tier)
     m = re.search(r'<<"CP_MATRIX", (\d+), (\d+), (\d+), (\{[^}]*\})>>', r["out"])
     if not m:
         raise vlib.ToolError("MC_CommitPolicy printed no matrix statistics:\n" + r["out"][-2000:])
@@ -130,7 +131,10 @@ def _violations(rep, cases_file, logf, leg):
         key = "C05:%s:%s:%s" % (v["ev"], "+".join(sorted(v["rules"])), v["detail"])
         groups.setdefault(key, []).append(v)
     out = []
-    for key, vs in sorted(groups.items()):
+    if len(groups) > MAX_FINDINGS:
+        log("[C05] %d distinct finding keys, reporting the first %d: %s ..." % (
+            len(groups), MAX_FINDINGS, " ".join(sorted(groups)[MAX_FINDINGS:MAX_FINDINGS + 10])))
+    for key, vs in sorted(groups.items())[:MAX_FINDINGS]:
         first = vs[0]
         case = _case_by_id(cases_file, [first["id"]]).get(first["id"])
         obs = None
